@@ -509,6 +509,45 @@ func c06r18(c *Ctx, r *Report) {
 	r.floor("record terminators written by the input relay", n, 1)
 }
 
+// c15r35: --header-lines N reserves N rows from the start (visibleHeaderLines counts Terminal.headerLines), and
+// printHeaderImpl paints one row per element of Terminal.header. The two agree only if the slice has N elements
+// from the start; the coordinator pads it to N with every update, and NewTerminal has to as well (D118: it started
+// empty: with fewer than N input lines the reserved rows were never painted, and after change-header to fewer
+// lines an old header line stayed on one of them).
+func c15r35(c *Ctx, r *Report) {
+	l := c.L
+	r.rule("C15-R35", "E (as many header elements as reserved rows)", "P1",
+		"in NewTerminal, Terminal.header is initialised with a slice whose length is Options.HeaderLines",
+		"a row reserved for --header-lines that no input line has filled keeps whatever was drawn there before")
+	fn := l.Fn("fzf", "NewTerminal")
+	fH := l.Field("fzf", "Terminal", "header")
+	fHL := l.Field("fzf", "Options", "HeaderLines")
+	if fn == nil || fH == nil || fHL == nil {
+		r.unest("anchors", token.NoPos, nil, "anchors NewTerminal / Terminal.header / Options.HeaderLines", "cannot resolve")
+		return
+	}
+	n := 0
+	eachInstr(fn, func(in ssa.Instruction) {
+		st, ok := in.(*ssa.Store)
+		if !ok {
+			return
+		}
+		if f, _ := fieldOf(st.Addr); f != fH {
+			return
+		}
+		n++
+		good := false
+		if mk, ok := st.Val.(*ssa.MakeSlice); ok {
+			if f, _ := loadedField(mk.Len); f == fHL {
+				good = true
+			}
+		}
+		r.check(good, fmt.Sprintf("%s:initial Terminal.header #%d has Options.HeaderLines elements", relName(fn), n), st.Pos(), fn,
+			"make([]string, opts.HeaderLines)", "Terminal.header starts as "+describe(st.Val)+": the rows reserved for header lines are not painted until the input has filled them")
+	})
+	r.floor("initialisations of Terminal.header", n, 1)
+}
+
 func round12(c *Ctx, r *Report, prop string) {
 	switch prop {
 	case "C06":
@@ -529,6 +568,7 @@ func round12(c *Ctx, r *Report, prop string) {
 		c15r32(c, r)
 		c15r33(c, r)
 		c15r34(c, r)
+		c15r35(c, r)
 		c14r22(c, r) // no counted character is filtered out by a wider test than the C0/C1 ranges
 	}
 }
